@@ -216,3 +216,199 @@ class check_kernel_equivalence_contract:
 
     def canary(sh, a, ret):
         check("canary: nothing is ever equivalent", not ret)
+
+
+# =====================================================================================
+# C14: dispatching rules and the dispatcher
+# =====================================================================================
+from xdsl.dialects import func, memref, scf  # noqa: E402
+from xdsl.dialects.builtin import ArrayAttr, AffineMapAttr  # noqa: E402
+
+import snaxc.transforms.dispatch_regions as dr  # noqa: E402
+import snaxc.util.dispatching_rules as rules  # noqa: E402
+from snaxc.accelerators.snax_alu import SNAXAluAccelerator  # noqa: E402
+from snaxc.accelerators.snax_xdma import SNAXXDMAAccelerator  # noqa: E402
+from snaxc.dialects import dart, snax  # noqa: E402
+
+
+class CtxView:
+    def __init__(self, acc):
+        self.acc = acc
+
+    def get_acc(self, name):
+        return self.acc
+
+
+def mk_region_op(body_kind):
+    x = mk_ident_value(9200, i32)
+    y8 = mk_ident_value(9201, i8)
+    if body_kind == "add_i32":
+        k = kernel.AddOp.create(operands=[x, x], result_types=[i32])
+    elif body_kind == "rescale_down":
+        k = kernel.RescaleOp(x, i8, 0, 0, [1], [0], 127, -128, False)
+    elif body_kind == "rescale_up":
+        k = kernel.RescaleOp(y8, i32, 0, 0, [1], [0], 127, -128, False)
+    elif body_kind == "mul_i32":
+        k = kernel.MulOp.create(operands=[x, x], result_types=[i32])
+    else:
+        k = None
+    body_ops = [dart.GenericOp([], Region([Block([k])]))] if k is not None else [BodyOp()]
+    return dart.AccessPatternOp([], [], ArrayAttr([]), Region([Block(body_ops)]), [], "acc")
+
+
+RULE_SHAPES = ([dict(op=o, acc="none", body="none") for o in ("copy", "generic", "sync", "other")]
+               + [dict(op="region", acc=a, body=b) for a in ("xdma", "alu") for b in ("add_i32", "rescale_down", "rescale_up", "mul_i32", "nogeneric")])
+
+
+@contract
+class dispatching_rules_contract:
+    """each op belongs to exactly the cores the rule names: never both; data movement / compute ops to one of them;
+    everything else - in particular the cluster barrier - to neither (it runs on all cores)"""
+    target = "snaxc.util.dispatching_rules.dispatch_to_dm"
+    shapes = RULE_SHAPES
+    native = False
+    total = True
+    permissive = True
+
+    def args(sh, sym):
+        acc = None
+        if sh["op"] == "copy":
+            op = memref.CopyOp(mk_ident_value(9300), mk_ident_value(9301))
+        elif sh["op"] == "generic":
+            op = linalg.GenericOp([], [], Region([Block([])]), None, None, [], None, None)
+        elif sh["op"] == "sync":
+            op = snax.ClusterSyncOp()
+        elif sh["op"] == "other":
+            op = BodyOp()
+        else:
+            op = mk_region_op(sh["body"])
+            acc = SNAXXDMAAccelerator() if sh["acc"] == "xdma" else SNAXAluAccelerator()
+        return [op, CtxView(acc)]
+
+    def run(sh, a):
+        return (rules.dispatch_to_dm(a[0], a[1]), rules.dispatch_to_compute(a[0], a[1]))
+
+    def ensures(sh, a, ret):
+        dm, comp = ret
+        check("never both the data-mover and the compute core", not (dm and comp))
+        if sh["op"] == "copy":
+            check("memref.copy runs on the data-mover core", dm and not comp)
+        elif sh["op"] == "generic":
+            check("linalg.generic runs on the compute core", comp and not dm)
+        elif sh["op"] in ("sync", "other"):
+            check("barriers and all other ops are guarded for no core (they run on all cores)", not dm and not comp)
+        elif sh["acc"] == "alu":
+            check("a streaming region of a compute accelerator runs on the compute core", comp and not dm)
+        elif sh["body"] in ("add_i32", "rescale_down", "rescale_up"):
+            check("an xDMA region whose kernel is provided by a streamer extension runs on the data-mover core", dm and not comp)
+        else:
+            # kernels no extension provides are rejected earlier by get_template (RuntimeError): outside the precondition;
+            # what holds regardless is stated above (never both)
+            check("an xDMA region with an unsupported kernel is not sent to the data mover", not dm)
+
+    def canary(sh, a, ret):
+        check("canary: nothing is dispatched anywhere", not ret[0] and not ret[1])
+
+
+class DOp(Operation):
+    """an op of the function body with ghost dispatch flags (the rules are used through their contract)"""
+
+    def __init__(self, dm, comp, regions=()):
+        self._init_op([], [], [])
+        self.dm = dm
+        self.comp = comp
+        self.regions = list(regions)
+        for r in self.regions:
+            r.parent = self
+
+
+def dm_rule(local):
+    return getattr(local["op"], "dm", False)
+
+
+def comp_rule(local):
+    return getattr(local["op"], "comp", False)
+
+
+def collect_guarded(log, func_call):
+    """from the recorded rewrites: {op: 'dm' | 'compute'} for every op moved under a core guard"""
+    ifs = {}
+    moved = []
+    for e in log:
+        if e[0] != "insert_op":
+            continue
+        for o in e[1]:
+            if isinstance(o, scf.IfOp):
+                ifs[len(ifs)] = o
+            elif isinstance(o, DOp):
+                anchor = e[2].anchor
+                owner = [i for i in ifs.values() if any(y is anchor for y in i.true_region.block.ops)]
+                moved.append((o, owner[0] if len(owner) == 1 else None))
+    return moved
+
+
+DISPATCH_SHAPES = [dict(n=n, nested=ne, cores=c) for n in (1, 2, 3) for ne in (False, True) for c in (2, 3) if not (n == 3 and ne)]
+
+
+@contract
+class DispatchRegionsRewriter_contract:
+    """every op ends up guarded for exactly the core its rule names (or unguarded), each at most once, in the original
+    relative order; the two guards are `core == nb_cores-1` and `core == 0` on one core-id call pinned to 0..nb_cores-1"""
+    target = "snaxc.transforms.dispatch_regions.DispatchRegionsRewriter.match_and_rewrite"
+    shapes = DISPATCH_SHAPES
+    native = False
+    total = True
+    permissive = True
+    modular = {"snaxc.util.dispatching_rules.dispatch_to_dm": dm_rule, "snaxc.util.dispatching_rules.dispatch_to_compute": comp_rule}
+
+    def args(sh, sym):
+        ops = []
+        for k in range(sh["n"]):
+            ops.append(DOp(sym.bool(f"dm{k}"), sym.bool(f"comp{k}")))
+        top = list(ops)
+        if sh["nested"]:
+            inner = [DOp(sym.bool("dm_in0"), sym.bool("comp_in0")), DOp(False, False)]
+            loop = DOp(False, False, [Region([Block(inner)])])
+            top.insert(1, loop)
+            ops = [ops[0], inner[0]] + ops[1:]
+        top.append(DOp(False, False))  # terminator
+        f = func.FuncOp("f", None, Region([Block(top)]))
+        return [f, ops, top]
+
+    def requires(sh, a):
+        # dispatching_rules_contract: no op belongs to both cores
+        return all(not (o.dm and o.comp) for o in a[1])
+
+    def run(sh, a):
+        rw = PatternRewriter(a[0])
+        dr.DispatchRegionsRewriter(sh["cores"], None).match_and_rewrite(a[0], rw)
+        return rw.log
+
+    def ensures(sh, a, ret):
+        f, ops, top = a
+        moved = collect_guarded(ret, None)
+        calls = [o for e in ret if e[0] == "insert_op" for o in e[1] if isinstance(o, func.CallOp)]
+        for k, o in enumerate(ops):
+            mine = [m for m in moved if m[0] is o]
+            check(f"op {k}: guarded at most once", len(mine) <= 1)
+            check(f"op {k}: guarded exactly when a rule names a core for it", (len(mine) == 1) == (o.dm or o.comp))
+            if len(mine) == 1 and mine[0][1] is not None:
+                cmp_ = mine[0][1].cond.owner
+                check(f"op {k}: the guard compares the core id call with the constant of ITS core (data mover = nb_cores-1, compute = 0)",
+                      isinstance(cmp_, arith.CmpiOp) and isinstance(cmp_.operands[0].owner, func.CallOp) and cmp_.operands[0].owner.callee.string_value() == "snax_cluster_core_idx"
+                      and cmp_.predicate == "eq" and ((o.dm and den(cmp_.operands[1]) == sh["cores"] - 1) or (o.comp and den(cmp_.operands[1]) == 0)))
+            elif len(mine) == 1:
+                check(f"op {k}: moved under an scf.if created by the dispatcher", False)
+        order = [m[0] for m in moved]
+        pos = [[i for i, o in enumerate(ops) if o is x][0] for x in order if any(o is x for o in ops)]
+        by_if = {}
+        for m in moved:
+            by_if.setdefault(id(m[1]), []).append([i for i, o in enumerate(ops) if o is m[0]][0])
+        check("inside each guard the ops keep their original relative order", all(v == sorted(v) for v in by_if.values()))
+        if len(moved) > 0:
+            check("the core id is obtained by exactly one call, pinned to the constants 0..nb_cores-1", len(calls) == 1
+                  and [x.value.data for x in calls[0].attributes["pin_to_constants"].data] == list(range(sh["cores"])))
+        check("for nb_cores >= 2 no core id satisfies both guards", sh["cores"] - 1 != 0)
+
+    def canary(sh, a, ret):
+        check("canary: nothing is ever guarded", len(collect_guarded(ret, None)) == 0)
